@@ -44,6 +44,20 @@ type concWorld struct {
 	mu   sync.Mutex
 	resp map[string]httpResp
 	err  string
+	evs  []string // event log for the validation of M4c (driver linrest): inv / ret / end / tick / quiet
+	nid  int
+}
+
+func (w *concWorld) ev(format string, a ...any) {
+	w.mu.Lock()
+	w.evs = append(w.evs, fmt.Sprintf(format, a...))
+	w.mu.Unlock()
+}
+func (w *concWorld) newID() int {
+	w.mu.Lock()
+	defer w.mu.Unlock()
+	w.nid++
+	return w.nid
 }
 
 func (w *concWorld) put(th string, r httpResp) {
@@ -78,14 +92,36 @@ func newConcWorld(n int) *concWorld {
 		s.keys = append(s.keys, m.Key)
 		w.sess = append(w.sess, s)
 	}
+	w.evs = []string{fmt.Sprintf("hist sessions=%d", n)}
+	sd.svc.mu.Lock()
+	sd.svc.onEnd = func(id string) {
+		for j, s := range w.sess {
+			if s.lsID == id {
+				w.ev("end %d", j)
+			}
+		}
+	}
+	sd.svc.mu.Unlock()
 	return w
 }
 
 func (w *concWorld) lockReq(th string, sess int, name string) {
-	w.put(th, w.sd.do("POST", "/v1/lock", &w.sess[sess].cookie, fmt.Sprintf(`{"name":%q}`, name)))
+	id := w.newID()
+	w.ev("inv %d req %d", id, sess)
+	r := w.sd.do("POST", "/v1/lock", &w.sess[sess].cookie, fmt.Sprintf(`{"name":%q}`, name))
+	if r.Panic == "" {
+		w.ev("ret %d %d", id, r.Code)
+	}
+	w.put(th, r)
 }
 func (w *concWorld) deleteReq(th string, sess int) {
-	w.put(th, w.sd.do("DELETE", "/session", &w.sess[sess].cookie, ""))
+	id := w.newID()
+	w.ev("inv %d del %d", id, sess)
+	r := w.sd.do("DELETE", "/session", &w.sess[sess].cookie, "")
+	if r.Panic == "" {
+		w.ev("ret %d %d", id, r.Code)
+	}
+	w.put(th, r)
 }
 
 // finish lets everything still armed fire (3T of silence), reads the monitors' inputs and closes.
@@ -96,8 +132,11 @@ func (w *concWorld) finish(threads []string) conc.Outcome {
 		return conc.Outcome{Key: "setup-failed: " + w.err, Detail: map[string]any{"setup": w.err}}
 	}
 	synctest.Wait()
+	w.ev("tick")
 	time.Sleep(3 * concT)
 	synctest.Wait()
+	w.ev("quiet")
+	w.ev("fin")
 	parts := []string{}
 	w.mu.Lock()
 	for _, th := range threads {
@@ -126,6 +165,9 @@ func (w *concWorld) finish(threads []string) conc.Outcome {
 	}
 	left := locksCanon(w.sd.ls, false)
 	d["ends"], d["left"], d["total_ends"] = ends, left, w.sd.svc.totalEnds()
+	w.mu.Lock()
+	d["m4c_history"] = strings.Join(w.evs, "\n")
+	w.mu.Unlock()
 	w.sd.close()
 	return conc.Outcome{Key: fmt.Sprintf("%s ends=%v left=%v", strings.Join(parts, " "), ends, left), Detail: d}
 }
@@ -148,6 +190,7 @@ func concPrograms() []concProgram {
 			Setup:   func() any { return newConcWorld(n) },
 			Threads: th,
 			Ticks:   ticks,
+			OnTick:  func(c any, i int) { c.(*concWorld).ev("tick") },
 			Finish:  func(c any) conc.Outcome { return c.(*concWorld).finish(names) },
 		}}
 	}
@@ -166,7 +209,12 @@ func concPrograms() []concProgram {
 }
 
 func TestRestConc(t *testing.T) {
-	const prop = "C20"
+	// C20 owns the gateway's session life cycle; C06 claims the same runs for "a REST session deleted or
+	// idle-expired releases every hold of the session exactly once, whatever is in flight"
+	prop := "C20"
+	if common.Prop() == "C06" {
+		prop = "C06"
+	}
 	res := common.NewResult("rest")
 	res.Property = prop
 	defer func() {
@@ -184,6 +232,7 @@ func TestRestConc(t *testing.T) {
 	for pi, cp := range concPrograms() {
 		outcomes := map[string]int{}
 		maxYields := 0
+		hists := map[string]func() map[string]any{} // distinct event histories -> replay of the first schedule that produced it (M4c validation)
 		visit := func(kind string) func(conc.RunResult) bool {
 			return func(r conc.RunResult) bool {
 				tr := strings.Join(r.Trace, ",")
@@ -218,6 +267,14 @@ func TestRestConc(t *testing.T) {
 				}
 				if r.Outcome.Detail == nil {
 					return true
+				}
+				if hh, ok := r.Outcome.Detail["m4c_history"].(string); ok && len(pan) == 0 && len(r.Blocked) == 0 && r.Deadlock == "" {
+					if _, seen := hists[hh]; !seen {
+						tr, name := append([]string{}, r.Trace...), cp.p.Name
+						hists[hh] = func() map[string]any {
+							return map[string]any{"program": name, "exploration": kind, "schedule": tr, "schedule_compressed": conc.Compress(tr), "seed": common.Seed()}
+						}
+					}
 				}
 				if ends, ok := r.Outcome.Detail["ends"].([]int); ok {
 					tot := 0
@@ -263,6 +320,10 @@ func TestRestConc(t *testing.T) {
 		open.Name = cp.p.Name
 		conc.ExploreDFS(t, open, bound, capRuns[pi]/2, visit("dfs-open"))
 		conc.ExploreRandom(t, open, nRandom, rng.Fork(uint64(pi)+77), visit("random-open"))
+		if err := common.ValidateHistories(res, prop, "linrest", "rest:conc:trace:m4c-model@"+cp.p.Name, "the gateway session-table model M4c", hists); err != nil {
+			t.Fatal(err)
+		}
+		res.CountN("m4c-histories-validated:"+cp.p.Name, len(hists))
 		ks := common.SortedKeys(outcomes)
 		sort.SliceStable(ks, func(i, j int) bool { return outcomes[ks[i]] > outcomes[ks[j]] })
 		for _, k := range ks {
